@@ -21,6 +21,34 @@ type Config struct {
 	RFLimit   int      // limit of the io.LimitedReader around the file
 	ConnKinds []string // connection kinds tried by the first file operation of a program
 	Versions  []int    // request versions (indexes into Versions)
+	// RFX enables the file-segment family of ReadFrom (OpRFX): limit N in {0, 1, what is left of the
+	// file, that + 1, more than the whole file} x file offset {0, middle, end of file} x connection
+	// kind. RFXEverywhere offers the whole family in every state and expands every state it
+	// reaches; otherwise it is offered where a positive Content-Length is declared (the one
+	// situation in which the response writer may hand the file to the connection's Sendfile), only
+	// the empty segment (on a connection with Sendfile) elsewhere, and a state whose body is not
+	// the pattern's prefix any more (a displaced segment) is only completed: the rest of the
+	// declared length, a Flush.
+	RFX           bool
+	RFXEverywhere bool
+	// Pipeline: programs that read from a file are followed, on the keep-alive request versions, by
+	// a second request on the same connection (Program.Next).
+	Pipeline bool
+	// KeyConn makes the connection kind / pipelining of a program part of the BFS state key (a file
+	// operation that leaves the Response untouched, like an empty segment, otherwise merges with
+	// its parent and what follows it on that kind of connection is never explored).
+	KeyConn bool
+}
+
+// WithFileSegments turns on the OpRFX family, the pipelined follow-up request and the finer state
+// key (the C09 space; C11 keeps the plain alphabet).
+func (c Config) WithFileSegments(everywhere bool) Config {
+	c.RFX, c.RFXEverywhere, c.Pipeline, c.KeyConn = true, everywhere, true, everywhere
+	if !contains(c.CLFixed, 1) {
+		// so that a one-byte segment can be all a response declares
+		c.CLFixed = append([]int{1}, c.CLFixed...)
+	}
+	return c
 }
 
 // QuickConfig / ThoroughConfig are the bounds of the two tiers.
@@ -71,6 +99,20 @@ type Node struct {
 	// Origin: the earliest prefix (a partially judged program) whose wire-so-far was already
 	// wrong; a failure of this program is attributed there (see JudgeSoFar).
 	Origin *Origin
+	// Allocator dimension (Explorer.Alts): bit i of AltFail = the program fails a reportable clause
+	// under Alts[i] although it is clean under the explorer's own allocator; AltTaint = a proper
+	// prefix already did (that prefix carries the report). Alt: the failures to report.
+	AltFail, AltTaint uint32
+	AltRuns           int
+	Alt               []AltFailure
+	altDone           bool
+}
+
+// AltFailure is a program that is clean under the explorer's allocator and fails under another.
+type AltFailure struct {
+	Opt      RunOpt
+	Verdicts []Verdict
+	R        *Result // without the wire
 }
 
 // Origin records where the wire first went wrong in a partially judged prefix.
@@ -93,6 +135,10 @@ type Explorer struct {
 	// Visit is called once for every executed transition (= every program), with the complete
 	// run; newState tells whether the state reached was not seen before.
 	Visit func(n *Node)
+	// Alts: the allocator as a dimension. Every program AltWanted selects (nil: all) that is judged
+	// and clean under Opt is run again under each of these allocators and judged by the same oracle.
+	Alts      []RunOpt
+	AltWanted func(n *Node, alt int) bool
 	// statistics
 	Probes      int
 	Landed      map[int]int // target -> transitions whose measured buffer landed exactly there
@@ -107,6 +153,7 @@ type Explorer struct {
 type succ struct {
 	op   Op
 	conn string
+	next bool
 }
 
 type stateKey struct {
@@ -117,7 +164,7 @@ type stateKey struct {
 func (x *Explorer) run(p Program) *Result { return x.Env.Run(p, x.Opt, false) }
 
 func appendOp(p Program, s succ) Program {
-	q := Program{Version: p.Version, Conn: p.Conn}
+	q := Program{Version: p.Version, Conn: p.Conn, Next: p.Next || s.next}
 	if s.conn != "" {
 		q.Conn = s.conn
 	}
@@ -253,6 +300,14 @@ func (x *Explorer) successors(n *Node) []succ {
 	fits := func(sz int) bool { return rem < 0 || sz <= rem }
 	no204 := func() bool { return m.Status != 204 && m.StatusAlt != 204 }
 
+	if cfg.RFX && !cfg.RFXEverywhere && !m.Aligned() {
+		if rem > 0 && no204() && m.Body+rem <= PatLen {
+			add(Op{K: OpW, N: rem, Sym: "fill"})
+		}
+		add(Op{K: OpF})
+		return out
+	}
+
 	// header operations
 	if m.DeclaredCL() < 0 {
 		if m.Body == 0 && m.Level < 3 {
@@ -346,14 +401,72 @@ func (x *Explorer) successors(n *Node) []succ {
 		if n.Prog.HasFileOp() {
 			kinds = []string{n.Prog.Conn}
 		}
+		next := cfg.Pipeline && !m.ReqClose
 		for _, k := range kinds {
 			if v := FileLen - m.Body; v > 0 && fits(v) {
-				out = append(out, succ{op: Op{K: OpRFF, N: v}, conn: k})
+				out = append(out, succ{op: Op{K: OpRFF, N: v}, conn: k, next: next})
 			}
 			if v := cfg.RFLimit; v > 0 && FileLen-m.Body > v && fits(v) {
-				out = append(out, succ{op: Op{K: OpRFL, N: v}, conn: k})
+				out = append(out, succ{op: Op{K: OpRFL, N: v}, conn: k, next: next})
 			}
 		}
+		if cfg.RFX {
+			for _, k := range kinds {
+				if !cfg.RFXEverywhere && m.DeclaredCL() <= 0 && k != ConnSendfile && len(kinds) > 1 {
+					continue // the empty segment: once
+				}
+				for _, op := range x.segments(m, fits, k == ConnSendfile) {
+					out = append(out, succ{op: op, conn: k, next: next})
+				}
+			}
+		}
+	}
+	return out
+}
+
+// segments lists the OpRFX operations offered in a state. The "middle" offset is the current body
+// offset when that lies inside the file (a handler serving a file piece by piece; the body then
+// stays aligned with the pattern and merges with the states other operations reach), else the
+// middle of the file.
+func (x *Explorer) segments(m *Model, fits func(int) bool, sendfile bool) []Op {
+	mid, midName := FileLen/2, "mid"
+	if m.Aligned() && m.Body > 0 && m.Body < FileLen {
+		mid, midName = m.Body, "cur"
+	}
+	var out []Op
+	seen := map[[2]int]bool{}
+	add := func(n, off int, sym string) {
+		op := Op{K: OpRFX, N: n, Off: off, Sym: sym}
+		if seen[[2]int{n, off}] || !fits(op.Count()) || m.Body+op.Count() > PatLen {
+			return
+		}
+		seen[[2]int{n, off}] = true
+		out = append(out, op)
+	}
+	if !x.Cfg.RFXEverywhere && m.DeclaredCL() <= 0 {
+		add(0, mid, "0@"+midName)
+		return out
+	}
+	if !x.Cfg.RFXEverywhere && !sendfile {
+		// a connection without Sendfile: every segment goes through io.Copy and Write, where only
+		// the number of bytes matters: nothing, one byte, a limit beyond the end of the file
+		left := FileLen - mid
+		add(0, mid, "0@"+midName)
+		add(1, mid, "1@"+midName)
+		add(left+1, mid, "left+1@"+midName)
+		add(1, FileLen, "1@eof")
+		return out
+	}
+	for _, o := range []struct {
+		off  int
+		name string
+	}{{0, "start"}, {mid, midName}, {FileLen, "eof"}} {
+		left := FileLen - o.off
+		add(0, o.off, "0@"+o.name)
+		add(1, o.off, "1@"+o.name)
+		add(left, o.off, "left@"+o.name)
+		add(left+1, o.off, "left+1@"+o.name)
+		add(FileLen+1000, o.off, "file+1000@"+o.name)
 	}
 	return out
 }
@@ -363,8 +476,9 @@ func (x *Explorer) child(n *Node, s succ) *Node {
 	m := *n.Model
 	m.Hdr0 = copyMap(n.Model.Hdr0)
 	m.HdrZ = copyMap(n.Model.HdrZ)
+	m.Spans = append([]Span(nil), n.Model.Spans...)
 	m.Apply(s.op)
-	c := &Node{Prog: p, Model: &m}
+	c := &Node{Prog: p, Model: &m, AltTaint: n.AltTaint | n.AltFail}
 	c.R = x.run(p)
 	x.Transitions++
 	if x.Judge {
@@ -419,12 +533,60 @@ func (n *Node) judge(parent *Node) {
 	}
 }
 
+// reportable splits the failed clauses of a program into those that may be reported and, for a
+// program that has not completed its declared body, those about the wire so far (see judge).
+func reportable(all []Verdict, partial bool) (report, wire []Verdict) {
+	if !partial {
+		return all, nil
+	}
+	for _, v := range all {
+		if opTimeClause(v.Clause) || strings.HasPrefix(v.Clause, "panic") || v.Clause == "hang" {
+			report = append(report, v)
+		} else {
+			wire = append(wire, v)
+		}
+	}
+	return
+}
+
+// alts runs the node's program under the other allocators (called once New is known).
+func (x *Explorer) alts(c *Node) {
+	if !x.Judge || len(x.Alts) == 0 || c.altDone {
+		return
+	}
+	c.altDone = true
+	if !c.Judged || c.Tainted || len(c.Verdicts) > 0 || c.Origin != nil {
+		// nothing to compare with: whatever the other allocators do below this point is not reported
+		c.AltTaint = ^uint32(0)
+		return
+	}
+	for i, a := range x.Alts {
+		if c.AltTaint&(1<<uint(i)) != 0 || (x.AltWanted != nil && !x.AltWanted(c, i)) {
+			continue
+		}
+		r := x.Env.Run(c.Prog, a, false)
+		c.AltRuns++
+		vs, _ := reportable(Judge(c.Model, r, c.Partial), c.Partial)
+		r.Release(x.Env)
+		if len(vs) > 0 {
+			c.AltFail |= 1 << uint(i)
+			r.T, r.Viol = nil, nil
+			c.Alt = append(c.Alt, AltFailure{Opt: a, Verdicts: vs, R: r})
+		}
+	}
+}
+
+// SignAlt is Sign for a failure under another allocator.
+func SignAlt(e *Env, n *Node, f AltFailure) (sig string, minimal Program) {
+	return Sign(e, &Node{Prog: n.Prog, Model: n.Model, R: f.R, Verdicts: f.Verdicts}, f.Opt)
+}
+
 // Attribute re-derives Judged/Verdicts/Tainted for a single program by judging all its prefixes
 // (what the explorer does incrementally); used by replays.
 func Attribute(e *Env, p Program, opt RunOpt) *Node {
 	var n *Node
 	for l := 0; l <= len(p.Ops); l++ {
-		q := Program{Version: p.Version, Conn: p.Conn, Ops: p.Ops[:l]}
+		q := p.With(p.Ops[:l])
 		c := &Node{Prog: q, Model: ModelOf(q)}
 		c.R = e.Run(q, opt, l == len(p.Ops))
 		c.judge(n)
@@ -441,7 +603,16 @@ func copyMap(m map[string]string) map[string]string {
 	return c
 }
 
-func (n *Node) key() stateKey { return stateKey{impl: n.R.Key, model: n.Model.Key()} }
+func (x *Explorer) key(n *Node) stateKey {
+	k := stateKey{impl: n.R.Key, model: n.Model.Key()}
+	if x.Cfg.KeyConn && n.Prog.HasFileOp() {
+		k.model += " conn=" + n.Prog.Conn
+		if n.Prog.Next {
+			k.model += "+next"
+		}
+	}
+	return k
+}
 
 // expandable: the handler came back normally and did not contradict itself for good.
 func (n *Node) expandable() bool {
@@ -471,8 +642,9 @@ func (x *Explorer) Explore(sh Sharder) {
 		if x.Judge {
 			root.judge(nil)
 		}
-		global := map[stateKey]bool{root.key(): true}
+		global := map[stateKey]bool{x.key(root): true}
 		root.New = true
+		x.alts(root)
 		if sh.Mine() {
 			x.States++
 			x.Visit(root)
@@ -492,7 +664,7 @@ func (x *Explorer) Explore(sh Sharder) {
 					if !mine {
 						x.Transitions-- // accounted by its owner
 					}
-					k := c.key()
+					k := x.key(c)
 					if c.expandable() && !global[k] {
 						global[k] = true
 						c.New = true
@@ -504,7 +676,11 @@ func (x *Explorer) Explore(sh Sharder) {
 						if c.New {
 							x.States++
 						}
+						x.alts(c)
 						x.Visit(c)
+					} else if level < split && c.New && c.expandable() {
+						// it is expanded by every worker: its children inherit the taint
+						x.alts(c)
 					}
 					c.trim(x.Env)
 				}
@@ -529,6 +705,7 @@ func (x *Explorer) Explore(sh Sharder) {
 
 func (x *Explorer) subtree(root *Node, level int, global map[stateKey]bool) {
 	local := map[stateKey]bool{}
+	x.alts(root) // unless its owner as a program already did
 	frontier := []*Node{root}
 	for level++; level <= x.Cfg.Depth; level++ {
 		var next []*Node
@@ -536,7 +713,7 @@ func (x *Explorer) subtree(root *Node, level int, global map[stateKey]bool) {
 		for _, n := range frontier {
 			for _, s := range x.successors(n) {
 				c := x.child(n, s)
-				k := c.key()
+				k := x.key(c)
 				if !c.expandable() {
 					c.New = true
 				} else if !global[k] && !local[k] {
@@ -549,6 +726,7 @@ func (x *Explorer) subtree(root *Node, level int, global map[stateKey]bool) {
 				if c.New {
 					x.States++
 				}
+				x.alts(c)
 				x.Visit(c)
 				c.trim(x.Env)
 			}
